@@ -607,20 +607,38 @@ func C27(c *Ctx) {
 	c.Rule(r3, "LocalStore.SaveAllocatorState runs under stateMu, writes the temp file and renames it over the state file (WriteFile()==nil → Rename), and the values written are sampled under a lock that orders the writes or clamped under stateMu to the highest values written so far (the checkpoint never regresses)")
 	if fn := c.Fn("pd/storage", "LocalStore.SaveAllocatorState"); fn != nil {
 		ls := ComputeLockSets(fn)
-		wf := need(c, r3, fn, false, "WriteFile", Named("(vfs.FS).WriteFile"), 1)
-		rn := need(c, r3, fn, false, "Rename", Named("(vfs.FS).Rename"), 1)
-		underLock(c, r3, fn, ls, "WriteFile", instrs(wf), "pd/storage.LocalStore.stateMu", false)
-		underLock(c, r3, fn, ls, "Rename", instrs(rn), "pd/storage.LocalStore.stateMu", false)
-		beforeOK(c, r3, fn, "WriteFile(tmp)", Named("(vfs.FS).WriteFile"), "Rename(tmp,state)", Named("(vfs.FS).Rename"), 1)
+		// the write-tmp / sync / rename / sync-dir sequence lives in SaveAllocatorState or in a
+		// same-package helper it calls under stateMu (and that nothing else calls)
+		body, bls := fn, ls
+		if len(Calls(fn, false, Named("(vfs.FS).Rename"))) == 0 {
+			for _, cs := range Calls(fn, false, func(*ssa.CallCommon) bool { return true }) {
+				cal := cs.Common().StaticCallee()
+				if cal == nil || cal.Blocks == nil || cal.Pkg != fn.Pkg || len(Calls(cal, false, Named("(vfs.FS).Rename"))) == 0 {
+					continue
+				}
+				body, bls = cal, ComputeLockSets(cal)
+				underLock(c, r3, fn, ls, cal.Name(), []ssa.Instruction{cs.(ssa.Instruction)}, "pd/storage.LocalStore.stateMu", false)
+				onlyCallers(c, r3, cal, map[string]string{FuncName(fn): "the checkpoint writer, under stateMu"}, 1)
+				break
+			}
+		}
+		wf := need(c, r3, body, false, "WriteFile", Named("(vfs.FS).WriteFile"), 1)
+		rn := need(c, r3, body, false, "Rename", Named("(vfs.FS).Rename"), 1)
+		if body == fn {
+			underLock(c, r3, fn, ls, "WriteFile", instrs(wf), "pd/storage.LocalStore.stateMu", false)
+			underLock(c, r3, fn, ls, "Rename", instrs(rn), "pd/storage.LocalStore.stateMu", false)
+		}
+		_ = bls
+		beforeOK(c, r3, body, "WriteFile(tmp)", Named("(vfs.FS).WriteFile"), "Rename(tmp,state)", Named("(vfs.FS).Rename"), 1)
 		// durability: the temp file is synced (File.Sync()==nil, directly or in a helper whose success
 		// implies it) before the rename, and the directory after it, before the saved mark moves
-		fsyncs := verifySites(c, fn, Named("(vfs.File).Sync"), 1)
+		fsyncs := verifySites(c, body, Named("(vfs.File).Sync"), 1)
 		for i, r := range rn {
-			k := key(fn, fmt.Sprintf("Rename[%d]<-ok(File.Sync)", i+1))
+			k := key(body, fmt.Sprintf("Rename[%d]<-ok(File.Sync)", i+1))
 			if len(fsyncs) == 0 {
 				c.Fail(r3, k, r.Pos(), 1, "the checkpoint's temporary file is renamed over the old checkpoint without being synced: Tso / AllocID reply right afterwards, and after a power loss the rename can survive while the data does not (an empty checkpoint, accepted as a fresh store: every value is handed out again)")
 			} else {
-				succOK(c, r3, k, fn, fsyncs, "File.Sync", r.(ssa.Instruction), "Rename")
+				succOK(c, r3, k, body, fsyncs, "File.Sync", r.(ssa.Instruction), "Rename")
 			}
 		}
 		dsyncs := verifySites(c, fn, Named("vfs.SyncDir"), 1)
@@ -634,7 +652,7 @@ func C27(c *Ctx) {
 		}
 		for i, r := range rn {
 			ev := ErrResult(r)
-			c.Decide(ev != nil && ev.Referrers() != nil && len(*ev.Referrers()) > 0, r3, key(fn, fmt.Sprintf("Rename[%d]#error-used", i+1)), r.Pos(), 1, "rename error is reported", "Rename's error is dropped")
+			c.Decide(ev != nil && ev.Referrers() != nil && len(*ev.Referrers()) > 0, r3, key(body, fmt.Sprintf("Rename[%d]#error-used", i+1)), r.Pos(), 1, "rename error is reported", "Rename's error is dropped")
 		}
 		// monotone: either caller samples under a lock held across the save, or clamp under stateMu
 		// the value stored into each field of the AllocatorState that gets written is max(param, saved.field):
@@ -675,7 +693,7 @@ func C27(c *Ctx) {
 			"the counters are sampled outside the lock that orders the writes and not clamped: two requests can write their samples in the opposite order, so a value already handed out can be above the checkpoint")
 		// saved state updated only after the rename succeeded
 		for i, st := range fieldStoresIn(fn, false, "pd/storage.LocalStore", "saved") {
-			succOK(c, r3, key(fn, fmt.Sprintf("saved-update[%d]<-ok(Rename)", i+1)), fn, rn, "Rename", st, "saved high-water mark update")
+			succOK(c, r3, key(fn, fmt.Sprintf("saved-update[%d]<-ok(Rename)", i+1)), fn, verifySites(c, fn, Named("(vfs.FS).Rename"), 1), "Rename", st, "saved high-water mark update")
 		}
 	}
 
